@@ -212,7 +212,7 @@ func check(ctx *pbt.Ctx, c Case) error {
 	}
 	beforeBytes := ref.Encode(before, true)
 	ctx.Key(beforeBytes, []byte(fmt.Sprint(c.Quote.Std, c.Quote.Data, c.Dest, c.Mainnet, c.Index)), c.Hash, c.Script)
-	fq := ref.FeeQuoteToLib(c.Quote)
+	fq := ref.FeeQuoteToLibTagged(c.Quote)
 	addr, opErr, err := callChange(tx, fq, c)
 	if err != nil {
 		return err
@@ -254,6 +254,7 @@ func judge(ctx *pbt.Ctx, c Case, before ref.Tx, tx *bt.Tx, opErr error, addr str
 	ctx.Label("dest=" + c.Dest)
 	ctx.Label("nout=" + noutClass(len(before.Out)))
 	ctx.Label("stdrate=" + rateClass(c.Quote.Std))
+	ctx.Label(feeTagLabel(c.Quote))
 	if len(before.In) >= 253 {
 		ctx.Label("inputs>=253")
 	}
@@ -458,7 +459,24 @@ func genUnit(t *rapid.T, label string) ref.FeeUnit {
 // GenQuote draws a fee quote: standard and data mining rates independent, relay
 // rates unrelated (the library documents the mining fee as the one that counts).
 func genQuote(t *rapid.T) ref.FeeQuote {
-	return ref.FeeQuote{Std: genUnit(t, "std"), Data: genUnit(t, "data"), StdRelay: genUnit(t, "stdrelay"), DataRelay: genUnit(t, "datarelay")}
+	return ref.FeeQuote{Std: genUnit(t, "std"), Data: genUnit(t, "data"), StdRelay: genUnit(t, "stdrelay"), DataRelay: genUnit(t, "datarelay"),
+		StdTag: genFeeTag(t, "stdtag"), DataTag: genFeeTag(t, "datatag")}
+}
+
+// genFeeTag draws what the informational FeeType field of a registered *bt.Fee carries: equal
+// to the key it is registered under, empty, or the other fee type (a copied and edited object).
+func genFeeTag(t *rapid.T, label string) int {
+	return []int{ref.FeeTagKey, ref.FeeTagKey, ref.FeeTagEmpty, ref.FeeTagOther}[rapid.IntRange(0, 3).Draw(t, label)]
+}
+
+func feeTagLabel(q ref.FeeQuote) string {
+	switch {
+	case q.StdTag == ref.FeeTagOther || q.DataTag == ref.FeeTagOther:
+		return "fee-type-field=other-type"
+	case q.StdTag == ref.FeeTagEmpty || q.DataTag == ref.FeeTagEmpty:
+		return "fee-type-field=empty"
+	}
+	return "fee-type-field=key"
 }
 
 func nonData(b []byte) []byte {
@@ -695,7 +713,7 @@ func enumCases(yield func(Case)) {
 							c.Tx.Out = append(c.Tx.Out, ref.Out{Sats: 0, Script: pbt.Hex{0x00, 0x6a, 0x02, 0xab, 0xcd}})
 						}
 					}
-					c.Quote = ref.FeeQuote{Std: r, Data: rates[(ri+3)%len(rates)], StdRelay: ref.FeeUnit{Sat: 7, Bytes: 3}, DataRelay: ref.FeeUnit{Sat: 1, Bytes: 9}}
+					c.Quote = ref.FeeQuote{Std: r, Data: rates[(ri+3)%len(rates)], StdRelay: ref.FeeUnit{Sat: 7, Bytes: 3}, DataRelay: ref.FeeUnit{Sat: 1, Bytes: 9}, StdTag: ri % 3, DataTag: (ri + 1) % 3}
 					switch d {
 					case "address":
 						c.Dest, c.Hash, c.Mainnet = destAddress, h(0x44), ri%2 == 0
